@@ -15,7 +15,7 @@ def run(ctx):
     fc.run_property(ctx, "C01", profiles=["mix", "mix", "waiters"], corpus_props=["C01"],
                     nscripts=400 if quick else 2500,
                     configs=[(1, 1), (2, 1), (2, 2, 12)] if quick else [(1, 1), (2, 1), (1, 2), (3, 1), (2, 2, 40)],
-                    trivial_rule=nontrivial)
+                    trivial_rule=nontrivial, many=(1, 3000) if quick else (3, 3400))
     ctx.cov["rule"] = ("scripts of 8-45 FEB calls by 2-8 tasks and 0-2 non-qthread pthreads on 1-3 words, generated against the model's "
                        "current state (would-block / state-flipping / neutral operations, every dest/src aliasing mode, _const and _nb "
                        "spellings, lock/unlock); non-trivial = at least one call blocked and at least one waiter was released")
